@@ -202,3 +202,26 @@ Definition conf_of_once_shape (sh : list string) : option fconf :=
   if has "once:LoadOrStore" sh && has "once.Do:call-fn" sh && has "once.Do:store-unconditional" sh && has "after:load" sh then
     Some {| f_mode := if has "after:if-err-forget-once" sh then MSuccess else MAll; f_recheck := true |}
   else None.
+
+(* ---- 4. the file name of a cached revision (cacheFileFromEtag) ------------------------
+   <dir of the cache file>[/APKINDEX]/<etag><ext>, where [etag] is the base32 text that
+   etagFromResponse made of the ETag header.  goextract reads which part of [etag] goes
+   into the name ("whole": the parameter itself, never reassigned; "reassigned:…" otherwise)
+   and the two extensions.  Path containment of the result is C18's subject, not modelled here. *)
+Definition etag_ext (exts : list string) (is_index : bool) : string :=
+  match exts, is_index with
+  | d :: _, false => d
+  | _ :: i :: _, true => i
+  | _, _ => ""
+  end.
+Definition etag_part (use : list string) : option (string -> string) :=
+  match use with
+  | [u] => if String.eqb u "whole" then Some (fun e => e) else None
+  | _ => None
+  end.
+Definition etag_file_base (part : string -> string) (exts : list string) (is_index : bool) (etag : string) : string :=
+  String.append (part etag) (etag_ext exts is_index).
+Definition etag_file_name (part : string -> string) (exts : list string) (dir : list string) (is_index : bool) (etag : string) : list string :=
+  dir ++ (if is_index then ["APKINDEX"] else []) ++ [etag_file_base part exts is_index etag].
+(* HYPOTHETICAL: only the first n characters of the etag go into the name (seeded change C19-8) *)
+Definition etag_cut (n : nat) (e : string) : string := String.substring 0 n e.
